@@ -186,26 +186,49 @@ def rules(ctx):
     o, fdr = ctx.require_fn("R4.tour-vanishes-only-if-nothing-is-left", "T1", T("remove"),
                             "Tour::remove reports 'nothing left' for a dummy tour only when no node remains, for a real tour when only depots remain")
     if fdr is not None:
-        nones = [i for i in fdr.body.instrs() if i.kind == "assign" and i.rv_kind() == "agg" and i.rv.get("adt") == "core::option::Option"
-                 and i.rv.get("v") == "None" and "Tour" in fdr.body.local_ty(i.place.local)]
-        ok = bool(nones)
-        for i in nones:
-            srcs = [cal for sw, cal, d in controlling_sources(fdr, i)]
-            at = fdr.slice(seed_blocks=[i.bb])["atoms"]
-            if not (T("is_dummy") in srcs or field(TOUR, "is_dummy") in at and any((c or "").endswith("is_dummy") for c in srcs)):
-                if field(TOUR, "is_dummy") not in fdr.slice(seed_blocks=[i.bb], control=True)["atoms"] or not any(
-                        d is not None and ((d.kind == "call" and (d.callee or "").endswith("is_dummy")) or (d.kind == "assign")) for sw, cal, d in controlling_sources(fdr, i)):
-                    ok = False
-        # precise form: a controlling condition reads the dummy flag
-        reads = False
-        for i in nones:
-            for sw, cal, d in controlling_sources(fdr, i):
-                cond = fdr.slice(seed_locals=fdr.operand_uses(sw.ops[0]), control=False)["atoms"]
-                if field(TOUR, "is_dummy") in cond or call(T("is_dummy")) in cond:
-                    reads = True
-        ctx.decide(o, bool(nones) and reads, "the None result is decided on the dummy flag and the remaining length",
-                   "the 'nothing left' decision does not look at the dummy flag: a dummy tour left with one or two trips is deleted and its trips vanish")
+        def opt_aggs(v):
+            return [i for i in fdr.body.instrs() if i.kind == "assign" and i.rv_kind() == "agg" and i.rv.get("adt") == "core::option::Option"
+                    and i.rv.get("v") == v and "Tour" in fdr.body.local_ty(i.place.local)]
+        nones, somes = opt_aggs("None"), opt_aggs("Some")
+        succ = fdr.cfg.succ
+
+        def reach(b0):
+            seen, wl = {b0}, [b0]
+            while wl:
+                for t in succ[wl.pop()]:
+                    if t not in seen:
+                        seen.add(t)
+                        wl.append(t)
+            return seen
+        nb, sb = {i.bb for i in nones}, {i.bb for i in somes}
+        # the switches that decide between 'nothing left' and 'a shortened tour': one of their edges leads to exactly one
+        # of the two outcomes (the early error returns of `?` lead to neither on one edge and to both on the other)
+        deciding = []
+        for b, sws in fdr.switches.items():
+            for t in succ[b]:
+                r = reach(t)
+                if bool(r & nb) != bool(r & sb):
+                    deciding.append(sws[0])
+                    break
+        reads = []
+        for sw in deciding:
+            cond = fdr.slice(seed_locals=fdr.operand_uses(sw.ops[0]), control=False)["atoms"]
+            if field(TOUR, "is_dummy") in cond or call(T("is_dummy")) in cond:
+                reads.append(sw)
+        if not nones or not somes or not deciding:
+            ctx.undecided(o, "the None / Some(tour) results and the branches deciding between them are not in a recognised form")
+        else:
+            ctx.decide(o, bool(reads), "%d of the %d deciding branches read the dummy flag" % (len(reads), len(deciding)),
+                       "none of the %d branches deciding between 'nothing left' and 'shortened tour' looks at the dummy flag: a dummy tour left "
+                       "with one or two trips is deleted and its trips vanish (or a real tour of two depots is kept)" % len(deciding),
+                       loc=deciding[0].line())
     formation_edits(ctx)
+    # the documented effect on formations: every node that leaves or enters a tour has its formation updated (shared with C03.R3)
+    from .C03 import formations_in_step
+    before = len(ctx.obligations)
+    formations_in_step(ctx)
+    for ob in ctx.obligations[before:]:
+        ob.id = ob.id.replace("C13/R3.", "C13/R6.formations.")
     from .C10 import fresh_ids
     fresh_ids(ctx, sites)
 
